@@ -342,6 +342,21 @@ def short_exhaustive_cases(g, classes, seed, maxlen=3, cap=700):
     return cases
 
 
+def repeat_then_remove_cases(g, seed, per_type=14):
+    """one child name supplied n times in a row (every repetition after the first goes through the duplication of a sequence or of a choice),
+    then the last or the first of them taken back, then both final checks: what duplication leaves behind in the copies is judged after a removal"""
+    rng = random.Random(seed * 613 + 11)
+    cases = []
+    for t in g['types']:
+        alpha = list(rx.alphabet(g['templates'][t]))
+        rng.shuffle(alpha)
+        for a in alpha[:per_type]:
+            for n in (2, 3):
+                cases.append({'type': t, 'ops': [['a', a]] * n + [['r', n - 1], ['f', 0], ['f', 1]]})
+            cases.append({'type': t, 'ops': [['a', a]] * 3 + [['r', 0], ['f', 0], ['f', 1]]})
+    return cases
+
+
 def choice_removal_cases(g, seed, pairs_per_choice=10):
     """for every choice of every template and pairs of its branches (a from one, b from another): add a; [add a;] remove the first a; [add a;] add b -
     the alternative must be exactly as available as on a fresh element holding what is left"""
